@@ -23,6 +23,7 @@ func verifMinterModuleKeeper() keeper.Keeper {
 // assumed to be consistent with the schedule: governance can move start / end times and amounts at any moment, so the last block
 // time, the amount minted so far and the remainders are arbitrary non-negative values and the sequence id is any existing period.
 func verifC10Genesis() (types.GenesisState, verifSched, int) {
+	vFirstIds = []uint32{1, 4}
 	nmax := 2
 	var K int64 = 2
 	if verif_tier() > 0 {
@@ -33,7 +34,7 @@ func verifC10Genesis() (types.GenesisState, verifSched, int) {
 	s := verifSchedule(n, kinds)
 	s.params.MintDenom = verif_str_in("mintDenom", "uc4e", "a", "u/:._-")
 	cur := verif_choice("cur", n)
-	st := types.MinterState{SequenceId: uint32(cur + 1), AmountMinted: verif_int_range("minted", "0", "1e40"),
+	st := types.MinterState{SequenceId: verifSeq(cur), AmountMinted: verif_int_range("minted", "0", "1e40"),
 		RemainderToMint: verif_dec_range("rtm", "0", "9999999999999999999"), RemainderFromPreviousMinter: verif_dec_range("carry", "0", "9999999999999999999"),
 		LastMintBlockTime: verif_time("t_last")}
 	g := types.GenesisState{Params: s.params, MinterState: st}
